@@ -99,4 +99,61 @@ def llSpec {τ : Type} (ems : List EM) (f : Nat → τ → α) (data : List (Out
       go (o + 1) ds (Score.add acc s)
   go 0 data Score.zero
 
+/-- `error_model.compute_pointwise_ll`, entry `j` (inside the support) -/
+def emPW (k : EM) (sig : List α) (ybar obs : Nat → α) (j : Nat) : α :=
+  let s0 := sig.getD 0 (ofNat 0)
+  let s1 := sig.getD 1 (ofNat 0)
+  match k with
+  | .gauss => gaussPW s0 ybar obs j
+  | .mult => multPW s0 ybar obs j
+  | .cm => cmPW s0 s1 ybar obs j
+  | .ln => lnPW s0 ybar obs j
+
+/-- `LogLikelihood.compute_pointwise_ll`: output by output, in time order (`np.hstack`);
+    `none` marks an entry that is not a finite log-density (guard / nan) -/
+def llPointwise {τ : Type} (ems : List EM) (f : Nat → τ → α) (data : List (OutData τ α))
+    (sig : List α) : List (Option α) :=
+  let rec go (o : Nat) (rest : List (OutData τ α)) : List (Option α) :=
+    match rest with
+    | [] => []
+    | d :: ds =>
+      let k := ems.getD o .gauss
+      let sg := sliceFor ems sig o
+      let yb := vecOf (d.times.map (f o))
+      let ob := vecOf d.obs
+      let row := match emLL k sg d.obs.length yb ob with
+        | .val _ => (List.range d.obs.length).map (fun j => some (emPW k sg yb ob j))
+        | _ => (List.range d.obs.length).map (fun _ => none)
+      row ++ go (o + 1) ds
+  go 0 data
+
+/-- `n_observations()` -/
+def nObservations {τ : Type} (data : List (OutData τ α)) : Nat := (data.map (·.obs.length)).sum
+
+/-- number of parameters: mechanistic ones, then every error model's -/
+def nParameters (nMech : Nat) (ems : List EM) : Nat := nMech + (ems.map EM.nParams).sum
+
+/-- the constructor's checks on one output's `(times, observations)`:
+    equal shape, no decrease between neighbours (`np.any(ts[:-1] > ts[1:])`).
+    Ties pass. -/
+def adjacentOk {τ : Type} (lt : τ → τ → Bool) : List τ → Bool
+  | [] => true
+  | [_] => true
+  | a :: b :: rest => !(lt b a) && adjacentOk lt (b :: rest)
+
+def constructorAccepts {τ : Type} (lt : τ → τ → Bool) (nOutputs : Nat) (ems : List EM)
+    (data : List (OutData τ α)) : Except Err Unit :=
+  if ems.length ≠ nOutputs || data.length ≠ nOutputs then .error .shapeMismatch
+  else if data.any (fun d => !(adjacentOk lt d.times)) then .error .notIncreasing
+  else if data.any (fun d => d.times.length ≠ d.obs.length) then .error .shapeMismatch
+  else .ok ()
+
+/-- `LogPosterior.__call__`: prior first; `-inf` prior short-circuits -/
+def logPosterior (prior : Score α) (ll : Unit → Except Err (Score α)) : Except Err (Score α) :=
+  match prior with
+  | .negInf => .ok .negInf
+  | p => match ll () with
+    | .error e => .error e
+    | .ok s => .ok (Score.add p s)
+
 end ChiModel
